@@ -280,3 +280,123 @@ Proof.
       exact Hd.
     + apply shuffle_app_l, shuffle_app_r. exact Hs.
 Qed.
+
+(* ---- C06: the pages are numbered 1..n, know their total, and only the first / last carry the first / last flag ---- *)
+Fixpoint zrange (a : Z) (n : nat) : list Z :=
+  match n with O => [] | S k => a :: zrange (a + 1) k end.
+
+Lemma zrange_S a n : zrange a (S n) = a :: zrange (a + 1) n.
+Proof. reflexivity. Qed.
+
+Lemma zrange_length a n : length (zrange a n) = n.
+Proof. revert a; induction n as [|n IH]; intro a; [reflexivity|]. cbn. f_equal. apply IH. Qed.
+
+Lemma zrange_nth a n i x : nth_error (zrange a n) i = Some x -> x = (a + Z.of_nat i)%Z /\ (i < n)%nat.
+Proof.
+  revert a i; induction n as [|n IH]; intros a i H; [destruct i; discriminate|].
+  destruct i as [|i]; cbn in H.
+  - inversion H; subst. split; lia.
+  - destruct (IH _ _ H) as [-> Hi]. split; lia.
+Qed.
+
+Lemma insert_z_head z x r : insert_z z (x :: r) = if Z.eqb z x then x :: r else if Z.ltb z x then z :: x :: r else x :: insert_z z r.
+Proof. reflexivity. Qed.
+
+(* a step sequence starting at p covers the interval from p to its last value *)
+Lemma unique_sorted_steps p r :
+  steps_from p r -> exists n, unique_sorted (p :: r) = zrange p (S n) /\ last (p :: r) p = (p + Z.of_nat n)%Z.
+Proof.
+  revert p; induction r as [|q r IH]; intros p H.
+  - exists 0%nat. split; [reflexivity|cbn; lia].
+  - cbn [steps_from] in H. destruct H as [Hq Hs]. destruct (IH q Hs) as (n & Hu & Hl).
+    change (unique_sorted (p :: q :: r)) with (insert_z p (unique_sorted (q :: r))).
+    rewrite Hu, zrange_S, insert_z_head. destruct Hq as [-> | ->].
+    + rewrite Z.eqb_refl. exists n. split; [rewrite zrange_S; reflexivity|].
+      change (last (p :: p :: r) p) with (last (p :: r) p). exact Hl.
+    + replace (Z.eqb p (p + 1)) with false by (symmetry; apply Z.eqb_neq; lia).
+      replace (Z.ltb p (p + 1)) with true by (symmetry; apply Z.ltb_lt; lia).
+      exists (S n). split; [rewrite (zrange_S p (S n)), (zrange_S (p + 1) n); reflexivity|].
+      change (last (p :: (p + 1)%Z :: r) p) with (last ((p + 1)%Z :: r) p).
+      replace (last ((p + 1)%Z :: r) p) with (last ((p + 1)%Z :: r) (p + 1)%Z)
+        by (clear; generalize (p + 1)%Z at 1 3 as a; intro a; revert a; induction r as [|x r IHr]; intro a; [reflexivity|apply (IHr x)]).
+      rewrite Hl. lia.
+Qed.
+
+Lemma countz_in p l : In p l -> (0 < countz p l)%nat.
+Proof.
+  induction l as [|q r IH]; [contradiction|]. cbn [countz In]. intros [->|H]; [rewrite Z.eqb_refl; lia|].
+  specialize (IH H). lia.
+Qed.
+
+Definition page_nums (ps : list pagectx) : list Z := map pc_num ps.
+
+Definition flags_ok (total : Z) (p : pagectx) : Prop :=
+  pc_total p = total /\ pc_first p = Z.eqb (pc_num p) 1 /\ pc_last p = Z.eqb (pc_num p) total.
+
+Theorem build_pages_numbering f b st r :
+  steps_from 1 r ->
+  let ps := build_pages f b st (1%Z :: r) in
+  exists n, page_nums ps = zrange 1 (S n) /\ length ps = S n /\ Forall (flags_ok (Z.of_nat (S n))) ps.
+Proof.
+  intro Hs. cbv zeta. destruct (unique_sorted_steps 1 r Hs) as (n & Hu & _). exists n.
+  assert (Hnd : nondecr 1 (1%Z :: r)) by (split; [lia|apply steps_nondecr; exact Hs]).
+  unfold build_pages. rewrite Hu.
+  assert (Hlen : length (zrange 1 (S n)) = S n) by apply zrange_length.
+  rewrite Hlen.
+  assert (Hin : forall p, In p (zrange 1 (S n)) -> In p (1%Z :: r)) by (intros p Hp; rewrite <- Hu in Hp; apply unique_sorted_in; exact Hp).
+  set (g := fun p : Z => match range_of p (1%Z :: r) 0 None with Some (lo, hi) => _ | None => [] end).
+  assert (G : forall u, (forall p, In p u -> In p (1%Z :: r)) ->
+              page_nums (flat_map g u) = u /\ Forall (flags_ok (Z.of_nat (S n))) (flat_map g u)).
+  { induction u as [|p u IH]; intro Hu'; [split; [reflexivity|constructor]|].
+    destruct (IH (fun q Hq => Hu' q (or_intror Hq))) as [I1 I2].
+    cbn [flat_map]. subst g. cbn beta.
+    pose proof (range_first p (1%Z :: r) 0 1%Z Hnd) as R.
+    pose proof (countz_in p (1%Z :: r) (Hu' p (or_introl eq_refl))) as C.
+    destruct (range_of p (1%Z :: r) 0 None) as [[lo hi]|]; [|lia].
+    cbn [app page_nums map pc_num]. split; [f_equal; exact I1|].
+    constructor; [|exact I2]. unfold flags_ok. cbn. repeat split. }
+  destruct (G (zrange 1 (S n)) Hin) as [G1 G2].
+  split; [exact G1|]. split; [|exact G2].
+  rewrite <- (map_length pc_num). fold (page_nums (flat_map g (zrange 1 (S n)))). rewrite G1. exact Hlen.
+Qed.
+
+(* the first page is the only one flagged first, the last the only one flagged last *)
+Corollary build_pages_first_last f b st r :
+  steps_from 1 r ->
+  let ps := build_pages f b st (1%Z :: r) in
+  forall i p, nth_error ps i = Some p -> pc_first p = Nat.eqb i 0 /\ pc_last p = Nat.eqb (S i) (length ps).
+Proof.
+  intro Hs. cbv zeta. destruct (build_pages_numbering f b st r Hs) as (n & Hn & Hl & Hf). intros i p Hi.
+  assert (Hnum : pc_num p = (1 + Z.of_nat i)%Z).
+  { assert (E : nth_error (page_nums (build_pages f b st (1%Z :: r))) i = Some (pc_num p))
+      by (unfold page_nums; rewrite nth_error_map, Hi; reflexivity).
+    rewrite Hn in E. destruct (zrange_nth _ _ _ _ E) as [X _]. exact X. }
+  rewrite Forall_forall in Hf. destruct (Hf p (nth_error_In _ _ Hi)) as (_ & H1 & H2).
+  rewrite H1, H2, Hnum, Hl. split.
+  - destruct i; [reflexivity|]. apply Z.eqb_neq. lia.
+  - destruct (Nat.eqb (S i) (S n)) eqn:E; [apply Nat.eqb_eq in E; apply Z.eqb_eq; lia|apply Nat.eqb_neq in E; apply Z.eqb_neq; lia].
+Qed.
+
+(* ---- the same for the pages of a whole section ---- *)
+Theorem paginate_numbering s pattrs rem cw pages :
+  paginate s pattrs rem cw = Ok pages -> f_rows (s_frame s) <> [] ->
+  exists n, page_nums pages = zrange 1 (S n) /\ length pages = S n /\ Forall (flags_ok (Z.of_nat (S n))) pages /\
+            (forall i p, nth_error pages i = Some p -> pc_first p = Nat.eqb i 0 /\ pc_last p = Nat.eqb (S i) (length pages)).
+Proof.
+  unfold paginate. intros H Hne. inv_bind H. inv_ok H.
+  assert (Hx : x <> []).
+  { intro X. subst x. destruct (choose_strategy (s_body s)); apply row_metadata_length in E; cbn in E;
+      destruct (f_rows (s_frame s)); congruence || discriminate. }
+  destruct x as [|m ms]; [congruence|].
+  set (pg := assign_pages _ _ _ (m :: ms)).
+  pose proof (assign_first (p_nrow (s_page s)) (additional_rows s)
+                (match choose_strategy (s_body s) with SDefault => false | SPageBy => b_new_page (s_body s) | SSubline => true end) m ms) as Hf.
+  pose proof (assign_steps (p_nrow (s_page s)) (additional_rows s)
+                (match choose_strategy (s_body s) with SDefault => false | SPageBy => b_new_page (s_body s) | SSubline => true end) (m :: ms)) as Hs.
+  fold pg in Hf, Hs. destruct pg as [|p0 r] eqn:Epg; [cbn in Hf; discriminate|]. cbn in Hf. subst p0.
+  cbn [steps_from] in Hs. destruct Hs as [_ Hs].
+  destruct (build_pages_numbering (s_frame s) (s_body s) (choose_strategy (s_body s)) r Hs) as (n & H1 & H2 & H3).
+  exists n. repeat split; try assumption.
+  - apply (build_pages_first_last (s_frame s) (s_body s) (choose_strategy (s_body s)) r Hs i p H).
+  - apply (build_pages_first_last (s_frame s) (s_body s) (choose_strategy (s_body s)) r Hs i p H).
+Qed.
